@@ -184,3 +184,21 @@ def add_tracing(source):
     tree = _Tracer().visit(tree)
     ast.fix_missing_locations(tree)
     return ast.unparse(tree)
+
+
+class _IfSwap(ast.NodeTransformer):
+    """`if c: A else: B`  ->  `if not c: B else: A` for every if with a non-empty else that is not
+    an elif chain link (behaviour-preserving)"""
+
+    def visit_If(self, node):
+        self.generic_visit(node)
+        if node.orelse and not (len(node.orelse) == 1 and isinstance(node.orelse[0], ast.If)):
+            return ast.copy_location(ast.If(test=ast.UnaryOp(op=ast.Not(), operand=node.test), body=node.orelse, orelse=node.body), node)
+        return node
+
+
+def swap_if_else(source):
+    tree = ast.parse(source)
+    tree = _IfSwap().visit(tree)
+    ast.fix_missing_locations(tree)
+    return ast.unparse(tree)
